@@ -7,6 +7,7 @@ import DL.Model.Codec
 import DL.Model.DecFiles
 import DL.Lemmas.Subst
 import DL.Lemmas.LayoutGen
+import DL.Model.GooFitProg
 import DL.Gen.Particles
 import DL.Gen.Models
 import DL.Gen.Grammar
@@ -25,6 +26,26 @@ def exceptSem (r : Except SemErr Sexp) : Sexp :=
   match r with
   | .ok x => ok x
   | .error e => encSemErr e
+
+def decPart : Sexp → Option PartInfo
+  | .list [.atom k, .atom n, .atom p] => some { key := k, name := n, prog := p }
+  | _ => none
+
+def decParRow : Sexp → Option (String × Bool × String × String)
+  | .list [.atom n, f, .atom v, .atom e] => f.asBool.map fun b => (n, b, v, e)
+  | _ => none
+
+def decConstRow : Sexp → Option (String × String)
+  | .list [.atom n, .atom v] => some (n, v)
+  | _ => none
+
+def decLineIn : Sexp → Option LineIn
+  | .list [.atom l, g] => (decGNodeA g).map fun t => { label := l, tree := t }
+  | _ => none
+
+def encProg : Except EmitErr (List PStmt) → Sexp
+  | .ok p => tag "ok" [.list (p.map fun s => .list [.atom s.sect, strs s.declares, strs s.uses])]
+  | .error e => encEmitErr e
 
 def decOpts : Sexp → Option Opts
   | .list [cc] => cc.asBool.map fun b => { includeCC := b }
@@ -212,6 +233,19 @@ def handle (x : Sexp) : Sexp :=
     (match Amp.readAmpText text with
     | .ok ts => ok (.list [.list (ts.map encAStmtT), bool (readAmp text).toOption.isSome])
     | .error e => tag "err" [.atom "ParseError", .atom e])
+  | .list [.atom "progname", .atom n] => ok (.atom (progName n))
+  | .list [.atom "prog", ev, ap, ps, cs, ls] =>
+    (match ev.asList.bind (·.mapM decPart), ap.asList.bind (·.mapM decPart), ps.asList.bind (·.mapM decParRow),
+          cs.asList.bind (·.mapM decConstRow), ls.asList.bind (·.mapM decLineIn) with
+    | some ev, some ap, some ps, some cs, some ls =>
+      let i : ProgIn := { table := Gen.knownSpinFactors, event := ev, allParts := ap, pars := ps, consts := cs, lines := ls }
+      let c := progCpp i
+      let p := progPy i
+      let cl (r : Except EmitErr (List PStmt)) : Sexp := match r with
+        | .ok q => bool (closedB q)
+        | .error _ => .atom "N"
+      ok (.list [encProg c, encProg p, bool (supportedB i), cl c, cl p])
+    | _, _, _, _, _ => bad "prog")
   | .list [.atom "emit_amp", n, fs] => match decGNodeA n, fs.asStrs with
     | some n, some fs => (match emitAmp Gen.knownSpinFactors n fs with
       | .ok a => ok (encAmpOut a)
